@@ -157,6 +157,14 @@ def run_writer_history(kind, url, ops, tmp, desc):
             elif op == "exit":
                 closed = True
                 w.__exit__(None, None, None)
+            elif op == "exitexc":
+                # the with-block is left through an exception of the application's: the writer is closed all the same
+                ev["op"] = "exit"
+                closed = True
+                try:
+                    raise ValueError("the application's own error")
+                except ValueError as err:
+                    w.__exit__(type(err), err, err.__traceback__)
         except Exception as e:
             ev["raised"], ev["exc"] = True, type(e).__name__ + ":" + str(e)[:80]
         if closed:
@@ -222,6 +230,8 @@ def writers_part(ctx, thorough):
             hl = histories(5)
         if base in BAD_TEXT:
             hl = hl + with_badwrites(hs, 3 if not thorough else 4)
+        # ... and every history that leaves a with-block, left through an exception instead
+        hl = hl + [["exitexc" if (op == "exit" and i == h.index("exit")) else op for i, op in enumerate(h)] for h in hl if "exit" in h and len(h) <= (4 if not thorough else 5)]
         for h in hl:
             traces.append(run_writer_history(base, url, h, tmp, desc))
             metas.append((name, h))
@@ -275,7 +285,7 @@ def _flushed_before_close(h):
             seen_flush = False
         elif op == "flush":
             seen_flush = True
-        elif op == "exit":
+        elif op in ("exit", "exitexc"):
             return True
         elif op == "close":
             return seen_flush
@@ -447,7 +457,8 @@ class FakeClock:
         self.timedelta = real.timedelta
 
 
-def list_files(tmp):
+def list_files(tmp, inos=None):
+    inos = inos or {}
     out = []
     allf = []
     for root, dirs, files in os.walk(tmp):
@@ -457,7 +468,7 @@ def list_files(tmp):
         f = os.path.basename(full)
         m = re.match(r"^([pq])\.(.*)records$", f)
         if not m:
-            out.append({"b": "?", "rot": True, "ids": [-1]})
+            out.append({"b": "?", "rot": True, "ids": [-1], "ino": 0})
             continue
         with open(full, "rb") as fh:
             data = fh.read()
@@ -465,7 +476,7 @@ def list_files(tmp):
             ids = [x[2][1] for x in rc.decode_stream(data) if x[0] == "REC"]
         except Exception:
             ids = [-1]
-        out.append({"b": m.group(1), "rot": f != m.group(1) + ".records", "ids": ids})
+        out.append({"b": m.group(1), "rot": f != m.group(1) + ".records", "ids": ids, "ino": inos.get(os.stat(full).st_ino, 0)})
     return out
 
 
@@ -480,13 +491,20 @@ def run_template_history(pre, ops, tmp, T, entry="template"):
     # the archiver variants put their files below <dir>/YYYY/mm/dd (the day of record._generated)
     sub = tmp if entry == "template" else os.path.join(tmp, "2020", "01", "02")
     os.makedirs(sub, exist_ok=True)
-    for p in pre:
-        with RecordWriter(os.path.join(sub, p + ".records")) as w:
-            w.write(T(p, 101 if p == "p" else 102, _generated=gen.GEN))
+    inos = {}
+    for p in pre:                                        # "p0": the file exists but is empty (created, nothing written yet)
+        full = os.path.join(sub, p[0] + ".records")
+        if p.endswith("0"):
+            open(full, "wb").close()
+        else:
+            with RecordWriter(full) as w:
+                w.write(T(p, 101 if p == "p" else 102, _generated=gen.GEN))
+        inos[os.stat(full).st_ino] = 101 if p[0] == "p" else 102
     clock = FakeClock()
     saved = S.datetime
     S.datetime = clock
-    tr = [{"pre": sorted(pre), "files": list_files(tmp)}]
+    list_files_ = list_files
+    tr = [{"pre": sorted(p[0] for p in pre), "preE": sorted(p[0] for p in pre if p.endswith("0")), "files": list_files_(tmp, inos)}]
     try:
         if entry == "template":
             w = S.PathTemplateWriter(path_template=os.path.join(tmp, "{record.k}.records"))
@@ -508,7 +526,7 @@ def run_template_history(pre, ops, tmp, T, entry="template"):
                     w.close()
             except Exception as e:
                 ev["raised"], ev["exc"] = True, type(e).__name__ + ":" + str(e)[:80]
-            ev["files"] = list_files(tmp)
+            ev["files"] = list_files_(tmp, inos)
             tr.append(ev)
         try:
             w.close()
@@ -542,11 +560,12 @@ def template_part(ctx, thorough):
     ctx.design("Template", "MC_Template.cfg", "exhaustive: 2 paths, <=5 writes, clock 0..2, pre-existing files subset of paths", actions=("Write", "Tick", "Close"), workers=8)
     if thorough:
         ctx.sensitivity("Template", "MC_Template_dev_Collision.cfg", "rotation name = f(path, clock) must violate NoLoss", "NoLoss", workers=4)
+    ctx.sensitivity("Template", "MC_Template_dev_SkipEmpty.cfg", "not renaming an existing empty file must violate NeverOverwrites", "NeverOverwrites", workers=4)
     T = RecordDescriptor("tpl/r", [("string", "k"), ("varint", "n")])
     tmp = common.scratch("c17t")
     hs = template_histories(5 if not thorough else 7)
     traces, metas = [], []
-    for pre in ([], ["p"], ["q"], ["p", "q"]):
+    for pre in ([], ["p"], ["q"], ["p", "q"], ["p0"], ["p0", "q"], ["p0", "q0"]):
         for h in hs:
             if not thorough and len(h) > 5 and (len(pre) + len(h)) % 2:
                 continue
@@ -555,7 +574,7 @@ def template_part(ctx, thorough):
             ctx.case(("template", tuple(pre), tuple(h)))
     # the same histories through RecordArchiver and through the archive:// adapter (shorter in quick)
     for entry in ("archiver", "archive-adapter"):
-        for pre in ([], ["p"], ["p", "q"]):
+        for pre in ([], ["p"], ["p", "q"], ["p0", "q"]):
             for h in hs:
                 if len(h) > (5 if thorough else 4):
                     continue
@@ -590,7 +609,7 @@ def template_part(ctx, thorough):
 
 
 def _double_rotation(pre, ops):
-    exists = set(pre)
+    exists = {p[0] for p in pre}
     cur = None
     clock = 0
     rotated = {}
